@@ -18,7 +18,9 @@ Definition ex_conversation : stream := [ex_cc; ex_mcs; ex_attach; ex_join_global
 Definition ex_conversation_split : stream :=
   [firstn 3 ex_cc; skipn 3 ex_cc ++ firstn 50 ex_mcs; skipn 50 ex_mcs; ex_attach ++ ex_join_global; ex_join_user; ex_license].
 
-Definition ex_config : config := mkConfig 0 false false false 3.
+Definition ex_config : config := mkConfig 0 false false false 3 false.
+(* NLA requested through the x224 API without an authentication protocol *)
+Definition ex_config_nla_noauth : config := mkConfig 3 false false false 3 false.
 
 (* defect witnesses (inputs that made the unrepaired code panic) *)
 Definition ex_lic_msgsize3 : bytes := [255; 3; 3; 0; 7; 0; 0; 0; 2; 0; 0; 0; 0; 0; 0; 0].          (* licence preamble, wMsgSize = 3 *)
